@@ -828,10 +828,14 @@ func (e *SpecEnv) evalCall(n *ast.CallExpr) (Val, error) {
 			}
 			sub.bound[iv.Name] = Val{T: bn, Ty: types.Typ[types.Int]}
 			var body string
+			pats := ""
 			if !skolem {
-				e.fc.defs.inline++
+				e.fc.defs.PushBinder()
 				body, err = sub.underBinder(n.Args[3], id.Name == "forall")
-				e.fc.defs.inline--
+				if err == nil && id.Name == "forall" {
+					pats = e.fc.defs.binderPatterns(body, bn)
+				}
+				body = e.fc.defs.PopBinder(body)
 			} else {
 				body, err = sub.evalBool(n.Args[3])
 			}
@@ -846,7 +850,7 @@ func (e *SpecEnv) evalCall(n *ast.CallExpr) (Val, error) {
 				return Val{T: and(rng, body), Ty: boolT}, nil
 			}
 			if id.Name == "forall" {
-				if pats := quantPatterns(body, bn); pats != "" {
+				if pats != "" {
 					return Val{T: fmt.Sprintf("(forall ((%s Int)) (! (=> %s %s) %s))", bn, rng, body, pats), Ty: boolT}, nil
 				}
 				return Val{T: fmt.Sprintf("(forall ((%s Int)) (=> %s %s))", bn, rng, body), Ty: boolT}, nil
@@ -887,9 +891,9 @@ func (e *SpecEnv) evalCall(n *ast.CallExpr) (Val, error) {
 			var body string
 			var err error
 			if !skolem {
-				e.fc.defs.inline++
+				e.fc.defs.PushBinder()
 				body, err = sub.underBinder(n.Args[len(n.Args)-1], isAll)
-				e.fc.defs.inline--
+				body = e.fc.defs.PopBinder(body)
 			} else {
 				body, err = sub.evalBool(n.Args[len(n.Args)-1])
 			}
@@ -1215,6 +1219,35 @@ func lookupMethodAnyPkg(t types.Type, name string) *types.Func {
 // every application (sl.ix S bn), (s.ix S bn) or (select A bn) occurring in body
 // whose other argument does not mention a bound variable. Each is an alternative.
 func quantPatterns(body, bn string) string {
+	return strings.Join(quantPatternList(body, bn, nil), " ")
+}
+
+// binderPatterns looks for pattern terms in the body and in the let-bindings of the
+// innermost open binder; let-bound names inside a pattern are expanded.
+func (d *Defs) binderPatterns(body, bn string) string {
+	texts := []string{body}
+	if len(d.lets) > 0 {
+		for _, l := range d.lets[len(d.lets)-1] {
+			texts = append(texts, l.body)
+		}
+	}
+	seen := map[string]bool{}
+	var out []string
+	for _, t := range texts {
+		for _, p := range quantPatternList(t, bn, d) {
+			if !seen[p] && !strings.Contains(p, "l$") && len(p) < 2000 {
+				seen[p] = true
+				out = append(out, p)
+			}
+		}
+	}
+	if len(out) > 4 {
+		out = out[:4]
+	}
+	return strings.Join(out, " ")
+}
+
+func quantPatternList(body, bn string, d *Defs) []string {
 	seen := map[string]bool{}
 	var pats []string
 	for _, head := range []string{"(sl.ix ", "(s.ix ", "(select "} {
@@ -1241,6 +1274,12 @@ func quantPatterns(body, bn string) string {
 				continue
 			}
 			term := body[start : arg1End+1+len(bn)+1]
+			if d != nil {
+				term = d.expandLets(term)
+				if strings.Contains(term, "q.") && strings.Count(term, "q.") > strings.Count(term, bn) {
+					continue
+				}
+			}
 			if !seen[term] {
 				seen[term] = true
 				pats = append(pats, ":pattern ("+term+")")
@@ -1250,7 +1289,7 @@ func quantPatterns(body, bn string) string {
 	if len(pats) > 4 {
 		pats = pats[:4]
 	}
-	return strings.Join(pats, " ")
+	return pats
 }
 
 // skipSexp returns the index just after the s-expression starting at i.
